@@ -121,6 +121,21 @@ theorem cleanup_replay_quiet (a a' : IoHold.A) (h : IoHold.astep a .clean = some
 theorem cleanup_reachable : ∃ s, IoHold.run {} IoHold.witness = some s ∧ s.cleaned = true ∧ s.returned.length = 3 :=
   IoHold.witness_reaches_cleanup
 
+/-- **no hold is ever taken on a descriptor entry that has been torn down** (and is freed right after): every step that raises the
+    suspension count of the close queue, other than the teardown's own holds for the stream sources, happens before the teardown,
+    under a hold that already exists or as a look-up that finds the entry in the table. The convenience calls
+    (`dispatch_read` / `dispatch_write`) hold the entry from their look-up callback until their operation is done (F37 as repaired). -/
+theorem no_hold_on_torn_entry {s s' : IoHold.St} {k : IoHold.K} (h : IoHold.Reachable s) (hs : IoHold.Step s k s') (hc : s.count < s'.count) :
+    (∃ n, k = .teardown n) ∨ (s.torn = false ∧ (0 < s.count ∨ k = .lookup)) :=
+  IoHold.no_hold_on_torn_entry h hs hc
+
+/-- F37 as found: with the look-up's hold given back and no other hold, the teardown runs; the shortcut's late hold is not a step of
+    the model and breaks its invariant. As repaired the same calls reach the cleanup with the handler call returned. -/
+theorem F37_as_found : ∃ s, IoHold.run {} [(2,0,0), (10,0,0)] = some s ∧ s.torn = true ∧ IoHold.exec s (5, 9, 0) = none ∧ ¬ IoHold.Inv (IoHold.lateZero s 9 0) :=
+  IoHold.F37_as_found
+theorem F37_fixed : ∃ s, IoHold.run {} [(1,7,0), (2,0,0), (5,9,0), (6,9,0), (9,7,0), (7,9,0), (10,0,0), (12,0,0)] = some s ∧ s.cleaned = true ∧ s.returned = [(9, 0)] :=
+  IoHold.F37_fixed
+
 /-! ## every operation is served: the stream, its handler requests and its readiness source (`StreamP`) -/
 
 /-- **the readiness source is armed exactly while `source_running`; no `dispatch_resume` of it - by the handler or by the teardown of
